@@ -99,7 +99,10 @@ end
 `null` and `[]`/`{}` carry no type information in JSON.  Against the placeholder itself
 the encoder writes the type next to the value; against a constraint that only CONTAINS
 the placeholder it does not.  `exactK t vt p`: every null and every empty list/set/map
-inside `p` sits at a constraint position that is the placeholder or equals its type. -/
+inside `p` sits at a constraint position that is the placeholder or equals its type.
+`exactK` compares with `Ty.equals`, annotations included: it is applied to the constraint
+the DECODER works with, i.e. after `Unmarshal` has dropped the optional-attribute
+annotations (`exact` below). -/
 mutual
 def exactK (t vt : Ty) : Payload → Bool
   | .null => Ty.equals t vt
@@ -126,7 +129,13 @@ def exactZip : List Ty → List Ty → List Payload → Bool
   | _, _, _ => true
 end
 
-def exact (t vt : Ty) (p : Payload) : Bool := if t.isDyn then exactK vt vt p else exactK t vt p
+/-- every null and every empty list/set/map of the value sits at a position of the
+constraint that is the placeholder itself or — optional-attribute annotations aside — the
+value's own type there.  Since /repo afdc0a2 `Unmarshal` drops the annotations of the
+requested type, so an ANNOTATED constraint position no longer costs a null / an empty
+collection its type; only a placeholder nested inside the position's constraint does. -/
+def exact (t vt : Ty) (p : Payload) : Bool :=
+  if t.isDyn then exactK vt vt p else exactK t.stripOpt vt p
 
 /-! ### "equal value": structural, numbers by `rawNumberEqual` (`RawEquals` away from sets) -/
 mutual
@@ -150,7 +159,7 @@ constraint succeeds, the result has an `Equals` type and the same payload -/
 def rtCheck (env : JEnv) (v : Value) (t : Ty) : Bool :=
   match marshal env v t with
   | .ok j =>
-    match unmarshal env j t with
+    match unmarshalTop env j t with
     | .ok v' => Ty.equals v'.ty v.ty && sameP v'.v v.v
     | _ => false
   | _ => false
@@ -285,7 +294,7 @@ end
 def docCheck (env : JEnv) (d : Json) : Bool :=
   match impliedType env d with
   | .ok t =>
-    match unmarshal env d t with
+    match unmarshalTop env d t with
     | .ok v =>
       match marshal env v t with
       | .ok d' => jsonNormEq env.norm d' d
@@ -361,7 +370,7 @@ spelling and string normalisation -/
 def docCheckFull (env : JEnv) (d : Json) : Bool :=
   match impliedType env d with
   | .ok t =>
-    match unmarshal env d t with
+    match unmarshalTop env d t with
     | .ok v =>
       match marshal env v t with
       | .ok d' => jsonEquiv (canon env d') (canon env d)
